@@ -5,7 +5,16 @@ Pairs (dest, src) of Section trees are generated from a common skeleton (every f
 Every skeleton node exists in both trees and carries: attributes to fill in both directions, a Property
 present in both trees (src brings a new value), Properties and a child Section present on one side only.
 Exactly one *feature* (conflict / near-conflict / conversion / name clash ...) is injected at every node
-position in turn, x strict on/off.  Thorough adds pairs with two features and randomly thinned overlap.
+position in turn, x strict on/off.  The skeleton gives merge something to change before it reaches the feature
+(fillable attributes on the way down, an earlier sibling Section that dest lacks).
+Further dimensions:
+  * naming of the children (SHARING): names are unique per child list only, so every node of both trees is given,
+    in turn on dest / src / both, a Property named like each child Section (of either tree) and like the Section
+    itself, a child Section named like each Property (the feature Property included), both at once, and - on src -
+    children whose names differ from dest's in case / white space only (different names: they have to be added);
+  * ordered pairs of features: something merge changes or cannot merge (same-named Section of another type,
+    attributes to fill, values to convert) at a node, one conflict of every kind at a later / deeper node;
+  * random: 1-3 features, randomly thinned overlap, random naming mode, trees living in documents.
 
 The oracle works on snapshots (rcc.harness, private fields) taken before and after the call and is written
 from the statement:
@@ -617,7 +626,8 @@ def run_section_merge(tier, seed):
                          '(2) the same x every naming mode of the children (%d modes: Property named like a sibling '
                          'Section / like its own Section, Section named like a sibling Property, on dest, src or both, '
                          'at every node of both trees; names differing in case or white space only) x %d core features '
-                         '+ all Section features; (3) ordered pairs of features: %d earlier/higher (something merge '
+                         '+ all Section features (skeletons of the largest size: feature at the last node only); '
+                         '(3) ordered pairs of features on skeletons one node smaller: %d earlier/higher (something merge '
                          'changes or cannot merge) x %d later/deeper conflicts at every pair of positions a < b, plain '
                          'and with all names shared; (4) random: 1-3 features, thinned overlap, random naming mode, '
                          'trees attached to documents; distinct = (feature(s), naming mode, position class, strict, outcome)'
@@ -645,9 +655,9 @@ def run_section_merge(tier, seed):
         for shape in h.tree_shapes(max_nodes):
             n = count_nodes(shape)
             for pos in range(n + 1):
-                if tier == 'quick' and n == max_nodes and (pos != n or not _chain_or_wide(shape)):
-                    continue        # quick: of the largest skeletons the chain and the row of siblings only, with
-                                    # the feature at the last (deepest / right-most) node
+                if n == max_nodes and (pos != n or (tier == 'quick' and not _chain_or_wide(shape))):
+                    continue        # largest skeletons: feature at the last (deepest / right-most) node only;
+                                    # quick: of these the chain and the row of siblings only
                 for feature, where in core:
                     if pos == 0 and feature[0] in type_features:
                         continue
